@@ -331,3 +331,41 @@ async fn d14_crash_during_make_read_only_recovers() {
         }
     }
 }
+
+/// D15 (C09, reported as a side finding by a seeding sub-agent in round 6): a request with a hash
+/// node BELOW the upgrade start whose span reaches INTO the upgrade range, together with a seek and
+/// an upgrade, passes the "seek + block/hash inside the upgrade range" refusal (its index is below
+/// `from`) but is not treated as trusted either (its last index is not below upgrade.start); the
+/// upgrade proof then asks block_and_seek_proof to climb from that node to a root that is not its
+/// ancestor.  The climb never ends (debug: multiply overflow panic in node()).
+#[test]
+fn d15_hash_seek_upgrade_request_returns() {
+    use hypercore::RequestSeek;
+    let (tx, rx) = std::sync::mpsc::channel();
+    std::thread::spawn(move || {
+        let rt = tokio::runtime::Builder::new_current_thread().enable_all().build().unwrap();
+        let r = std::panic::catch_unwind(std::panic::AssertUnwindSafe(|| {
+            rt.block_on(async {
+                let d = Disk::new();
+                let mut c = create(&d, keys()).await;
+                for i in 0..8u8 {
+                    c.append(&[i]).await.unwrap();
+                }
+                let r = c
+                    .create_proof(None, Some(RequestBlock { index: 3, nodes: 0 }), Some(RequestSeek { bytes: 3 }), Some(RequestUpgrade { start: 2, length: 6 }))
+                    .await;
+                // whatever the answer, the core must still serve an ordinary request
+                let ok = c.create_proof(Some(RequestBlock { index: 1, nodes: 0 }), None, None, Some(RequestUpgrade { start: 0, length: 8 })).await;
+                (r.map(|p| p.is_some()).map_err(|e| e.to_string()), ok.is_ok())
+            })
+        }));
+        let _ = tx.send(r.map_err(|e| e.downcast_ref::<String>().cloned().or_else(|| e.downcast_ref::<&str>().map(|s| s.to_string())).unwrap_or_default()));
+    });
+    match rx.recv_timeout(std::time::Duration::from_secs(60)) {
+        Ok(Ok((answer, usable))) => {
+            assert!(usable, "the core is not usable after the request (answer was {answer:?})");
+        }
+        Ok(Err(panic)) => panic!("create_proof panicked: {panic}"),
+        Err(_) => panic!("create_proof did not return within 60 s"),
+    }
+}
